@@ -1,7 +1,87 @@
 import GoawkModel.Basic
-/-! Line-protocol handler for property C18: one request line (already split into words, without the leading `c18`) → one answer line. -/
-namespace GoawkModel.Drv.C18
+import GoawkModel.C18
+/-! Line-protocol handler for property C18.
 
-def handle (_args : List String) : String := "unimplemented"
+Statement: `s <id>` | `j <id> <break|continue|next|exit|return>` | `if <id> <body> <body>` | `wh|for|fi|do|bl <id> <body>`;
+body: `nil` | `[ <stmt>* ]`.
+* `ann <body>*` (Begin blocks, actions, End blocks, function bodies in that order)
+    → `blocks <id,id,…>* ; flat <tokens of the annotated program in printing order> ; erased <ok|DIFF>`
+* `run <fuel> <script as d,d,…|-> <body>` → `<signal> ; <ctr counts k=n…> ; erasedtrace <ok|DIFF> ; starts <id=n…>` for the annotated body,
+  compared inside the model with the run of the original -/
+namespace GoawkModel.Drv.C18
+open GoawkModel GoawkModel.C18
+
+mutual
+partial def parseStmt : List String → Option (Stmt × List String)
+  | "s" :: i :: r => i.toNat?.map fun i => (.simple i, r)
+  | "j" :: i :: k :: r =>
+    let j := if k == "break" then some Jump.brk else if k == "continue" then some .cont else if k == "next" then some .next
+      else if k == "exit" then some .exit else if k == "return" then some .ret else none
+    match i.toNat?, j with
+    | some i, some j => some (.jump i j, r)
+    | _, _ => none
+  | "if" :: i :: r =>
+    match i.toNat?, parseBody r with
+    | some i, some (b, r1) => (parseBody r1).map fun (e, r2) => (.ifS i b e, r2)
+    | _, _ => none
+  | "wh" :: i :: r => match i.toNat?, parseBody r with | some i, some (b, r1) => some (.whileS i b, r1) | _, _ => none
+  | "for" :: i :: r => match i.toNat?, parseBody r with | some i, some (b, r1) => some (.forS i b, r1) | _, _ => none
+  | "fi" :: i :: r => match i.toNat?, parseBody r with | some i, some (b, r1) => some (.forIn i b, r1) | _, _ => none
+  | "do" :: i :: r => match i.toNat?, parseBody r with | some i, some (b, r1) => some (.doWhile i b, r1) | _, _ => none
+  | "bl" :: i :: r => match i.toNat?, parseBody r with | some i, some (b, r1) => some (.block i b, r1) | _, _ => none
+  | _ => none
+partial def parseList : List String → Option (Stmts × List String)
+  | "]" :: r => some (.nil false, r)
+  | ws => match parseStmt ws with
+    | some (s, r) => (parseList r).map fun (ss, r2) => (.cons s ss, r2)
+    | none => none
+partial def parseBody : List String → Option (Stmts × List String)
+  | "nil" :: r => some (.nil true, r)
+  | "[" :: r => parseList r
+  | _ => none
+end
+
+partial def parseBodies (ws : List String) : Option (List Stmts) :=
+  if ws.isEmpty then some [] else
+  match parseBody ws with
+  | some (b, r) => (parseBodies r).map (b :: ·)
+  | none => none
+
+def showCounts (xs : List (Nat × Nat)) : String :=
+  String.intercalate "," (xs.map fun (k, n) => s!"{k}={n}")
+
+def sigName : Signal → String
+  | .normal => "normal" | .brk => "break" | .cont => "continue" | .next => "next" | .exit => "exit" | .ret => "return"
+
+def dedup (xs : List Nat) : List Nat := xs.foldl (fun acc x => if acc.contains x then acc else acc ++ [x]) []
+
+def handle (args : List String) : String :=
+  match args with
+  | "ann" :: rest =>
+    match parseBodies rest with
+    | none => "bad-program"
+    | some bodies =>
+      let (st, out) := annotate bodies ⟨[]⟩
+      let blocks := st.blocks.map fun b => String.intercalate "," (b.ids.map toString)
+      let flat := out.map fun b => String.intercalate " " ((if b.isGoNil then ["nil"] else ["["]) ++ flatStmts b ++ (if b.isGoNil then [] else ["]"]))
+      let erasedOk := (out.map fun b => flatStmts (eraseStmts b)) == bodies.map flatStmts && (out.map Stmts.isGoNil) == bodies.map Stmts.isGoNil
+      "blocks " ++ String.intercalate " " blocks ++ " ; flat " ++ String.intercalate " " flat ++ " ; erased " ++ (if erasedOk then "ok" else "DIFF")
+  | "run" :: fuel :: script :: rest =>
+    match fuel.toNat?, parseBody rest with
+    | some fuel, some (body, _) =>
+      let sc := if script == "-" then [] else (script.splitOn ",").filterMap String.toNat?
+      let (st, ab) := annStmts ⟨[]⟩ body
+      match execStmts fuel ab sc [], execStmts fuel body sc [] with
+      | some ra, some ro =>
+        let ks := List.range st.blocks.length |>.map (· + 1)
+        let ctrs := ks.map fun k => (k, countCtr k ra.trace)
+        let firsts := (st.blocks.map fun b => b.ids.headD 0)
+        let starts := firsts.map fun i => (i, countStart i ro.trace)
+        let same := eraseTrace ra.trace == ro.trace && ra.sig == ro.sig && ra.script == ro.script
+        s!"{sigName ra.sig} ; {showCounts ctrs} ; erasedtrace {if same then "ok" else "DIFF"} ; starts {showCounts starts}"
+      | none, none => "fuel"
+      | _, _ => "fuel-mismatch"
+    | _, _ => "bad-request"
+  | _ => "bad-request"
 
 end GoawkModel.Drv.C18
